@@ -105,6 +105,8 @@ class Interp:
             return
         kind = op["op"]
         ctx = self.ctx
+        if phase == "post" and self.case.get("handle") and getattr(self, "handle", None) is not None and kind not in ("enter", "closed"):
+            ctx = self.handle  # through the component's kept handle
         self.cells.add((phase, kind))
         ok = allowed(phase, kind)
         module = op.get("via") == "module" and phase in ("open", "teardown")
@@ -251,6 +253,18 @@ class Interp:
                             def bad() -> None:
                                 raise VErr("teardown")
                             ctx.add_teardown_callback(bad)
+                        if case.get("handle"):
+                            # a component keeps the context object it saw in start(); using it later is
+                            # using this context (it delegates)
+                            from asphalt.core import Component, current_context, start_component
+
+                            keeper = self
+
+                            class Keeper(Component):
+                                async def start(self) -> None:
+                                    keeper.handle = current_context()
+
+                            await start_component(Keeper, timeout=None)
                         for op in case["open"]:
                             await self.do_op("open", op)
 
@@ -316,17 +330,32 @@ class Interp:
                 c = Context(ctxs[-1]) if (ctxs and case.get("explicit_parent")) else Context()
                 await c.__aenter__()
                 ctxs.append(c)
-            victim = ctxs[k]
+            if case.get("leak_in_task"):
+                # the open child is leaked by a task that has finished; nobody references it any more
+                import gc
+
+                parent = ctxs[-1]
+
+                async def leaker() -> None:
+                    await Context(parent).__aenter__()
+
+                async with anyio.create_task_group() as tg:
+                    tg.start_soon(leaker)
+                gc.collect()
+                k_local = depth - 1
+            else:
+                k_local = k
+            victim = ctxs[k_local]
             try:
                 await victim.__aexit__(None, None, None)
             except BaseException as exc:
                 errors.append(exc)
-            self.trace.append(["left", k, "of", depth, [repr(e)[:80] for e in errors]])
+            self.trace.append(["left", k_local, "of", depth, [repr(e)[:80] for e in errors]])
             if not errors:
-                self.disc("stack-corruption-ignored",
-                          f"context #{k} of a chain of {depth} was left while its child was still open and nothing was raised")
+                self.disc("stack-corruption-ignored" + (":leaked-by-finished-task" if case.get("leak_in_task") else ""),
+                          f"context #{k_local} of a chain of {depth} was left while its child was still open and nothing was raised")
             elif not any(isinstance(l, RuntimeError) for l in flatten_exc(errors[0])):
-                self.disc("stack-corruption-wrong-error", f"leaving #{k} with an open child raised {errors[0]!r}")
+                self.disc("stack-corruption-wrong-error", f"leaving #{k_local} with an open child raised {errors[0]!r}")
             if not victim.closed:
                 self.disc("closed-flag:post", "context left with an open child does not report closed")
             # the block has been left: the context must refuse further use like any closed context
@@ -421,7 +450,7 @@ def cases(draw: Any, tier: str) -> dict:
     if d.pct(12):
         depth = d.int(2, 4)
         return {"type": "corrupt", "backend": draw(BACKEND), "sched_seed": 0, "depth": depth, "leave": d.int(0, depth - 2),
-                "explicit_parent": d.bool(), "outer_root": d.bool()}
+                "explicit_parent": d.bool(), "outer_root": d.bool(), "leak_in_task": d.pct(35)}
     hi = 3 if tier == "quick" else 5
     c: dict[str, Any] = {"type": "life", "backend": draw(BACKEND), "sched_seed": draw(SEED), "kind": d.pick(["root", "nested"]),
                          "exit": d.pick(EXITS)}
@@ -429,6 +458,8 @@ def cases(draw: Any, tier: str) -> dict:
         c[ph] = [_op(d, ph) for _ in range(d.int(0, hi))]
     if d.pct(8):
         c["never_enter"] = True
+    elif d.pct(25):
+        c["handle"] = True
     return c
 
 
@@ -464,12 +495,12 @@ def exhaustive_cases(prop: str, tier: str, w: int, n: int):
             yield c
     for backend, depth in itertools.product(("asyncio", "trio"), (2, 3, 4)):
         for k in range(depth - 1):
-            for explicit, outer in itertools.product((False, True), (False, True)):
+            for explicit, outer, leak in itertools.product((False, True), (False, True), (False, True)):
                 i += 1
                 if i % n != w:
                     continue
                 yield {"type": "corrupt", "backend": backend, "sched_seed": 0, "depth": depth, "leave": k,
-                       "explicit_parent": explicit, "outer_root": outer}
+                       "explicit_parent": explicit, "outer_root": outer, "leak_in_task": leak}
 
 
 def shrink_candidates(case: dict):
